@@ -7,6 +7,7 @@
 //! recorded, attributed, shrunk and replayable like every other oracle failure. An oracle run is a search for
 //! failing inputs, never evidence that the property holds.
 use crate::colls::*;
+use crate::keys::live_check;
 use crate::rng::Rng;
 use crate::run::*;
 use std::collections::BTreeMap;
@@ -58,12 +59,22 @@ fn one_history(coll: &str, cfg: &Cfg, rng: &mut Rng, ops_done: &AtomicU64, rec: 
             o
         }};
     }
+    // handles held since the last removal (C17): (handle, key)
+    let mut held: Vec<(i64, i64)> = Vec::new();
     for i in 0..cfg.len {
         let roll = rng.below(100);
         let k = rng.range(0, u - 1);
         let val = 1000 * (i as i64 + 1) + k % 1000;
+        // every 64 operations: shape, colours, links, slot partition (C02, C11)
+        if i % 64 == 63 {
+            let bad = matches!(c.structure(), Some(Err(_))) || c.abs_note().is_some();
+            if bad { rec.push((Op::new("isempty", &[]), None)); ops_done.fetch_add(n_ops, Ordering::Relaxed); return true; }
+        }
         if expiring {
+            // comparisons on keys that are not live at the operation's time (C20)
+            if live_check(None) { ops_done.fetch_add(n_ops, Ordering::Relaxed); return true; }
             if rng.chance(1, 3) { t += rng.range(0, 2); }
+            live_check(Some(t));
             // profiles: 0 lookup-heavy, 1 predecessor-heavy, 2 churn with clears / exports
             let (p_ins, p_get, p_fle, p_fl) = match cfg.profile { 0 => (50, 95, 98, 100), 1 => (45, 55, 80, 100), _ => (40, 60, 75, 90) };
             if roll < p_ins {
@@ -91,7 +102,12 @@ fn one_history(coll: &str, cfg: &Cfg, rng: &mut Rng, ops_done: &AtomicU64, rec: 
                 if m.contains_key(&k) { continue; }
                 run!(Op::new("insert", &[k, val]), None, None);
                 m.insert(k, (0, val));
-            } else if roll < p_del { run!(Op::new("delete", &[k]), None, None); m.remove(&k); }
+                // a handle taken before this insertion still designates its entry
+                if !held.is_empty() && (coll == "map" || coll == "set") {
+                    let (hh, hk) = held[rng.below(held.len() as u64) as usize];
+                    if let Some(v) = m.get(&hk).map(|x| x.1) { run!(Op::new("validx", &[hh]), Some(hk), Some(v.to_string())); }
+                }
+            } else if roll < p_del { run!(Op::new("delete", &[k]), None, None); m.remove(&k); held.clear(); }
             else if roll < p_get { let kq = rng.range(-1, u); run!(Op::new("get", &[kq]), None, Some(s(live(&m, kq, 0)))); }
             else {
                 // predecessor handle, then read / write / delete / neighbour steps through it
@@ -104,9 +120,9 @@ fn one_history(coll: &str, cfg: &Cfg, rng: &mut Rng, ops_done: &AtomicU64, rec: 
                     (None, None) => {}
                     (Some(hh), Some((pk, pv))) => {
                         let w = rng.below(10);
-                        if w < 5 { run!(Op::new("validx", &[hh]), Some(pk), Some(pv.to_string())); }
+                        if w < 5 { run!(Op::new("validx", &[hh]), Some(pk), Some(pv.to_string())); if held.len() < 8 { held.push((hh, pk)); } }
                         else if w < 7 { run!(Op::new("setidx", &[hh, val]), Some(pk), None); m.insert(pk, (0, val)); }
-                        else if w < 9 || !is_set { run!(Op::new("delidx", &[hh]), Some(pk), None); m.remove(&pk); }
+                        else if w < 9 || !is_set { run!(Op::new("delidx", &[hh]), Some(pk), None); m.remove(&pk); held.clear(); }
                         else {
                             // walk from the predecessor by neighbour steps, down or up: values in key order, then the sentinel
                             let down = rng.chance(1, 2);
@@ -125,9 +141,10 @@ fn one_history(coll: &str, cfg: &Cfg, rng: &mut Rng, ops_done: &AtomicU64, rec: 
                     _ => { ops_done.fetch_add(n_ops, Ordering::Relaxed); return true; }
                 }
             }
-            if cfg.profile == 2 && rng.chance(1, 400) { run!(Op::new("clear", &[]), None, None); m.clear(); }
+            if cfg.profile == 2 && rng.chance(1, 400) { run!(Op::new("clear", &[]), None, None); m.clear(); held.clear(); }
         }
     }
+    if expiring && live_check(None) { ops_done.fetch_add(n_ops, Ordering::Relaxed); return true; }
     ops_done.fetch_add(n_ops, Ordering::Relaxed);
     false
 }
